@@ -216,7 +216,7 @@ def run_kani_job(ctx, res, job):
         res.items.append(it.describe())
         res.rules += ["%s: %s" % (it.name, r) for r in it.rules]
     hs = [h for h in job.harnesses if h.kind != "bounded" or True]
-    kani_run.write_crate(d, "vp_" + job.name, "#![allow(dead_code, unused_imports, unused_variables, unused_mut, unused_parens, unused_macros, unreachable_code, semicolon_in_expressions_from_non_local_macros)]\n" + kani_run.SHIM + job.lib_rs, job.deps, [h.name for h in job.harnesses], ctx.repo)
+    kani_run.write_crate(d, "vp_" + job.name, "#![recursion_limit = \"1024\"]\n#![allow(dead_code, unused_imports, unused_variables, unused_mut, unused_parens, unused_macros, unreachable_code, unknown_lints, semicolon_in_expressions_from_non_local_macros)]\n" + kani_run.SHIM + job.lib_rs, job.deps, [h.name for h in job.harnesses], ctx.repo)
     open(os.path.join(d, "extract.diff"), "w").write("".join(it.diff() for it in job.items))
     scan_trusted(job.lib_rs, job.trusted, res, job.name)
     r = kani_run.run_kani(d, [h.name.split("::")[-1] for h in hs], jobs=job.jobs, timeout=job.timeout,
@@ -512,3 +512,23 @@ fn vp_hook() {
 }
 fn vp_seed() -> u64 { std::env::args().nth(1).and_then(|s| s.parse::<u64>().ok()).unwrap_or(1).wrapping_mul(0x9E3779B97F4A7C15) | 1 }
 '''
+
+
+def try_unit(unit, tier="quick"):
+    """run one unit against $VERIF_REPO (default /repo) without touching its baseline; for mutation smoke tests"""
+    ctx = Ctx("_try_" + unit, tier, int(os.environ.get("VERIF_SEED", "1") or 1))
+    res = run_unit(ctx, unit)
+    base = set(load_baseline(unit)["discharged"])
+    bad = [o for o in res.obls if o.status != "discharged"]
+    print("unit %s on %s: %d obligations, %d discharged" % (unit, ctx.repo, len(res.obls), len(res.obls) - len(bad)))
+    for u in res.undecided:
+        print("UNDECIDED:", u[:2000])
+    rc = 2 if res.undecided else 0
+    for f in res.failures:
+        o = f["obl"]
+        print("FAILED%s: %s\n%s" % ("" if o.id in base else " (not in baseline)", o.id, o.detail[:2500]))
+        if o.id in base:
+            info = replay_failure(ctx, res, f)
+            print("  replay: found_input=%s input=%s %s" % (info.get("found_input"), info.get("input") or info.get("input_bytes"), info.get("actual_vs_expected", "")))
+            rc = 1
+    return rc
